@@ -789,3 +789,41 @@ def option_body(prog, fn, T, term, src_pred):
         if pay is not None:
             return OptBody(fn, T, pay, [(a[3] if a[0] == "call" and len(a) > 3 else None, a) for a in others], bool(nones), "match-opt")
     return None
+
+
+def builder_result_fields(fn, adt):
+    """For a by-value builder method `fn(self, ..) -> Self`: the value each field of the returned object gets, whichever way it is
+    written — `self.f = v; self` (stores into the receiver) or `Adt { f: v, ..self }` (a fresh aggregate).  Returns
+    {field: term} for the fields that differ from the receiver's, plus the set of fields carried over unchanged; None if the
+    function does not have either shape."""
+    T = M.Terms(fn)
+    selfp = ("param", 1, fn.local_name(1))
+    changed, kept = {}, set()
+    ags = [(bb, si, r) for (bb, si, r) in aggregates_of(fn, adt)]
+    if ags:
+        if len(ags) != 1:
+            return None
+        r = ags[0][2]
+        for n, o in zip(r["fields"], r["ops"]):
+            v = T.operand(o)
+            if M.noref(v) == ("field", selfp, n):
+                kept.add(n)
+            else:
+                changed[n] = v
+        return changed, kept
+    # store form
+    owner_fields = set()
+    for bb in sorted(fn.live_blocks()):
+        for s in fn.blocks[bb]["stmts"]:
+            if s["k"] == "assign" and s["p"]["l"] == 1 and s["p"]["proj"] and s["p"]["proj"][0]["k"] == "field" and s["p"]["proj"][0].get("of") == adt and len(s["p"]["proj"]) == 1:
+                n = s["p"]["proj"][0]["name"]
+                if n in changed:
+                    return None
+                changed[n] = T.rvalue(s["r"])
+    r0 = T.local(0)
+    if M.noref(r0) != selfp and not (r0[0] == "param" and r0[1] == 1):
+        # returned value must be the receiver
+        rets = [s["r"] for bb in fn.live_blocks() for s in fn.blocks[bb]["stmts"] if s["k"] == "assign" and s["p"]["l"] == 0 and not s["p"]["proj"]]
+        if not (len(rets) == 1 and rets[0]["k"] == "use" and rets[0]["op"]["k"] in ("move", "copy") and rets[0]["op"]["p"]["l"] == 1 and not rets[0]["op"]["p"]["proj"]):
+            return None
+    return changed, None
